@@ -284,3 +284,117 @@ def forward_dataflow(func, init, transfer, join, edge_transfer=None, bottom=None
                     work.append(s)
                     inq.add(s)
     return instate
+
+
+# ---- loop progress ------------------------------------------------------------------------------
+PURE_CALLS = {'strlen', 'strcmp', 'strncmp', 'strchr', 'strrchr', 'strstr', 'isdigit', 'isspace', 'isalpha',
+              'toupper', 'tolower', 'strcasecmp', 'memcmp', 'strnlen', 'pthread_equal', '__builtin_strlen',
+              'strpbrk', 'strspn', 'strcspn', 'abs', 'snoopy_util_string_countChars'}
+
+
+def stuck_cycles(func):
+    """loops that can go round without changing anything their exit conditions depend on.
+    Returns a list of (loop block ids, exit condition nodes, offending cycle witness block)."""
+    from .facts import strip
+    out = []
+    live = reachable_blocks(func)
+    for comp in _sccs(func, live):
+        cs = set(comp)
+        if len(comp) == 1 and comp[0] not in func.blocks[comp[0]].succs:
+            continue
+        exits = [func.blocks[b] for b in comp
+                 if func.blocks[b].cond is not None and any(s not in cs for s, u in func.blocks[b].all_succs if s is not None and not u)]
+        if not exits:
+            # no conditional exit at all: only return/break-less infinite loop
+            rets = any(e.k == 'ReturnStmt' or (e.k == 'CallExpr' and e.get('calleeNoReturn'))
+                       for b in comp for e in func.blocks[b].elems)
+            if not rets:
+                out.append((comp, [], comp[0]))
+            continue
+        vars_ = set()
+        impure = False
+        for b in exits:
+            for n in b.cond.walk():
+                if n.k == 'DeclRefExpr' and n['ref']['kind'] in ('var', 'parm'):
+                    vars_.add(n['ref']['id'])
+                if n.k == 'CallExpr' and n.get('callee') not in PURE_CALLS:
+                    impure = True   # the condition itself advances some state (getline, strtok_r, list iterator ...)
+                if n.k in ('BinaryOperator', 'CompoundAssignOperator') and (n.get('op') == '=' or n.k == 'CompoundAssignOperator'):
+                    impure = True
+                if n.k == 'UnaryOperator' and n.get('op') in ('++', '--'):
+                    impure = True
+        if impure:
+            continue
+
+        def progresses(blk):
+            for e in blk.elems:
+                if e.k in ('BinaryOperator', 'CompoundAssignOperator') and (e.get('op') == '=' or e.k == 'CompoundAssignOperator'):
+                    l = strip(e.ch[0])
+                    while l is not None and l.k in ('ArraySubscriptExpr', 'MemberExpr') or \
+                            (l is not None and l.k == 'UnaryOperator' and l.get('op') == '*'):
+                        l = strip(l.ch[0])
+                    if l is not None and l.k == 'DeclRefExpr' and l['ref'].get('id') in vars_:
+                        return True
+                if e.k == 'UnaryOperator' and e.get('op') in ('++', '--'):
+                    l = strip(e.ch[0])
+                    if l is not None and l.k == 'DeclRefExpr' and l['ref'].get('id') in vars_:
+                        return True
+                if e.k == 'CallExpr':
+                    for a in e.ch[1:]:
+                        s = strip(a) if a is not None else None
+                        if s is not None and s.k == 'UnaryOperator' and s.get('op') == '&':
+                            t = strip(s.ch[0])
+                            if t is not None and t.k == 'DeclRefExpr' and t['ref'].get('id') in vars_:
+                                return True
+                        # strings the condition reads may be modified through pointers passed on
+                        if s is not None and s.k == 'DeclRefExpr' and s['ref'].get('id') in vars_ and \
+                                e.get('callee') not in PURE_CALLS:
+                            return True
+                if e.k == 'DeclStmt':
+                    for d in e['decls']:
+                        if d['id'] in vars_ and d.get('init', -1) != -1:
+                            return True
+            return False
+        stay = {b for b in comp if not progresses(func.blocks[b])}
+        # is there a cycle inside `stay`?
+        sub = [c for c in _sccs_sub(func, stay)]
+        for c in sub:
+            if len(c) > 1 or c[0] in [s for s in func.blocks[c[0]].succs if s in stay]:
+                out.append((comp, [b.cond for b in exits], c[0]))
+                break
+    return out
+
+
+def _sccs_sub(func, nodes):
+    """SCCs of the sub-graph induced by `nodes`"""
+    index, low, on, st, out = {}, {}, set(), [], []
+    cnt = [0]
+    import sys
+    sys.setrecursionlimit(10000)
+
+    def strong(v):
+        index[v] = low[v] = cnt[0]
+        cnt[0] += 1
+        st.append(v)
+        on.add(v)
+        for s in func.blocks[v].succs:
+            if s not in nodes:
+                continue
+            if s not in index:
+                strong(s)
+                low[v] = min(low[v], low[s])
+            elif s in on:
+                low[v] = min(low[v], index[s])
+        if low[v] == index[v]:
+            c = []
+            while True:
+                x = st.pop()
+                on.discard(x)
+                c.append(x)
+                if x == v:
+                    break
+            out.append(c)
+    for v in sorted(nodes):
+        if v not in index:
+            strong(v)
+    return out
